@@ -866,7 +866,7 @@ Proof. reflexivity. Qed.
 
 Ltac rnorm :=
   repeat (rewrite render_app || rewrite render_cons || rewrite render_nil);
-  cbn [render_item spell]; repeat rewrite <- app_assoc; cbn [app]; rewrite ?app_nil_r.
+  cbn [render_item spell nl sp ind]; repeat rewrite <- app_assoc; cbn [app]; rewrite ?app_nil_r.
 
 Lemma render_sepl : forall ns sep xs,
   render ns (sepl sep xs) = sep_by (render ns sep) (map (render ns) xs).
@@ -947,3 +947,440 @@ Section MachineProofs.
   Qed.
 End MachineProofs.
 Print Assumptions aty_print_machine_eq.
+
+Lemma one_len : forall {A B} (l : list A) (f : A -> B),
+  Nat.eqb (length l) 1 && nonempty (map f l) = one l.
+Proof. intros A B [|a [|b l]] f; reflexivity. Qed.
+
+Lemma one_len' : forall {A} (l : list A), Nat.eqb (length l) 1 && nonempty l = one l.
+Proof. intros A [|a [|b l]]; reflexivity. Qed.
+
+Section MachineProofs2.
+  Variable ns : N -> list N.
+
+  (** ** patterns *)
+  Lemma pat_count_eq : forall p, pat_count p = S (list_sum (map pat_count (pat_children p))).
+  Proof. destruct p; reflexivity. Qed.
+
+  Local Notation ptxt := (vtxt pat_children pat_count (pat_display ns)).
+
+  Lemma ptxt_unfold : forall p,
+    ptxt p = pat_display ns (p, 0%nat, Nat.eqb (length (pat_children p)) 0)
+             ++ inter_out ptxt (fun j => pat_display ns (p, j, Nat.eqb j (length (pat_children p)))) 0%nat
+                  (pat_children p).
+  Proof. intros p. rewrite (vtxt_unfold pat_children pat_count pat_count_eq (pat_display ns) p). reflexivity. Qed.
+
+  Lemma render_if_csp : forall b : bool, render ns (if b then csp else []) = if b then [44; 32] else [].
+  Proof. destruct b; reflexivity. Qed.
+
+  Lemma pat_txt : forall p, ptxt p = render ns (lay_pat p).
+  Proof.
+    induction p as [x| |ps IHps|ps IHps] using pat_ind'; rewrite ptxt_unfold;
+      cbn [pat_children pat_display lay_pat].
+    - cbn [length Nat.eqb inter_out]. rnorm. reflexivity.
+    - cbn [length Nat.eqb inter_out]. rnorm. reflexivity.
+    - rewrite seq_text. rewrite (map_ext_Forall _ _ _ IHps), one_len'. rnorm.
+      rewrite render_sepl, map_map, render_if_csp. reflexivity.
+    - rewrite seq_text. rewrite (map_ext_Forall _ _ _ IHps). rnorm.
+      rewrite render_sepl, map_map. reflexivity.
+  Qed.
+
+  (* MAIN THEOREM (patterns): the machine of Display for Pattern prints the structural text *)
+  Theorem pat_print_machine_eq : forall p, pat_print_machine ns p = print_pat ns p.
+  Proof.
+    intros p. unfold pat_print_machine, print_pat.
+    rewrite (vev_machine pat_children pat_count pat_count_eq). apply pat_txt.
+  Qed.
+
+  (** ** call names and match patterns *)
+  Lemma callname_txt : forall c, callname_machine ns c = render ns (lay_callname c).
+  Proof.
+    destruct c; cbn [callname_machine lay_callname]; rewrite ?aty_print_machine_eq; unfold print_aty;
+      rnorm; reflexivity.
+  Qed.
+
+  Lemma mpat_txt : forall m, mpat_machine ns m = render ns (lay_mpat m).
+  Proof.
+    destruct m; cbn [mpat_machine lay_mpat]; rewrite ?aty_print_machine_eq; unfold print_aty;
+      rnorm; reflexivity.
+  Qed.
+
+  (** ** expressions *)
+  Lemma ex_count_ge2 : forall e, (2 <= ex_count e)%nat.
+  Proof. destruct e; cbn [ex_count]; lia. Qed.
+
+  Lemma sum_NExpr : forall es, list_sum (map en_count (map NExpr es)) = list_sum (map ex_count es).
+  Proof. intros es. rewrite map_map. reflexivity. Qed.
+
+  Lemma sum_NStmt : forall ss, list_sum (map en_count (map NStmt ss)) = list_sum (map stmt_count ss).
+  Proof. intros ss. rewrite map_map. reflexivity. Qed.
+
+  Lemma ex_count_block : forall ss l,
+    ex_count (PBlock ss l)
+    = S (S (list_sum (map stmt_count ss) + match l with Some e1 => ex_count e1 | None => O end)).
+  Proof. reflexivity. Qed.
+
+  Lemma en_count_eq : forall t, en_count t = S (list_sum (map en_count (en_children t))).
+  Proof.
+    destruct t as [e|ss l|s|p t e|e|name args|s lp el rp er].
+    - destruct e as [ss l| | | | | | | | | | | | | | | ];
+        cbn [en_children en_count map list_sum fold_right]; rewrite ?ex_count_block; cbn [ex_count pred]; lia.
+    - cbn [en_children en_count]. rewrite map_app, list_sum_app, sum_NStmt.
+      destruct l as [e|]; cbn [map list_sum fold_right en_count]; lia.
+    - destruct s as [[[p t]|] e]; cbn [en_children en_count stmt_count map list_sum fold_right]; lia.
+    - cbn [en_children en_count map list_sum fold_right]. lia.
+    - destruct e; cbn [en_children en_count ex_count pred]; rewrite ?sum_NExpr;
+        cbn [map list_sum fold_right en_count]; lia.
+    - cbn [en_children en_count]. rewrite sum_NExpr. reflexivity.
+    - cbn [en_children en_count map list_sum fold_right]. lia.
+  Qed.
+
+  Local Notation etxt := (vtxt en_children en_count (en_display ns)).
+
+  Lemma etxt_unfold : forall t,
+    etxt t = en_display ns (t, 0%nat, Nat.eqb (length (en_children t)) 0)
+             ++ inter_out etxt (fun j => en_display ns (t, j, Nat.eqb j (length (en_children t)))) 0%nat
+                  (en_children t).
+  Proof. intros t. rewrite (vtxt_unfold en_children en_count en_count_eq (en_display ns) t). reflexivity. Qed.
+
+  Lemma etxt_single : forall e, is_block e = false -> etxt (NExpr e) = etxt (NSingle e).
+  Proof.
+    intros e H. rewrite (etxt_unfold (NExpr e)).
+    destruct e; try discriminate H; cbn [en_children length Nat.eqb en_display inter_out app]; apply app_nil_r.
+  Qed.
+
+  Lemma etxt_block : forall ss l, etxt (NExpr (PBlock ss l)) = etxt (NBlock ss l).
+  Proof.
+    intros ss l. rewrite (etxt_unfold (NExpr _)).
+    cbn [en_children length Nat.eqb en_display inter_out app]. apply app_nil_r.
+  Qed.
+
+  (* a block: "{\n", the children separated by four spaces, "}\n" *)
+  Lemma block_text : forall ss l cs,
+    en_display ns (NBlock ss l, 0%nat, Nat.eqb (length cs) 0)
+    ++ inter_out etxt (fun j => en_display ns (NBlock ss l, j, Nat.eqb j (length cs))) 0%nat cs
+    = [123; 10] ++ sep_by [32;32;32;32] (map etxt cs) ++ [125; 10].
+  Proof.
+    intros ss l cs. destruct cs as [|c cs]; [reflexivity|].
+    rewrite (inter_out_sep etxt _ [32;32;32;32] [125; 10] (length (c :: cs))).
+    - reflexivity.
+    - intros j Hj. destruct j as [|j]; [lia|]. cbn [en_display].
+      replace (Nat.eqb (S j) (length (c :: cs))) with false by (symmetry; apply Nat.eqb_neq; lia).
+      reflexivity.
+    - cbn [en_display length]. rewrite Nat.eqb_refl. reflexivity.
+    - reflexivity.
+    - discriminate.
+  Qed.
+
+  Definition lay_stmt (s : option (ppat * aty) * pexpr) : list litem :=
+    match s with
+    | (Some (p, t), e1) => lay_let p t ++ lay_expr e1 ++ [LT TSemi; nl]
+    | (None, e1) => lay_expr e1 ++ [LT TSemi; nl]
+    end.
+
+  Lemma stmt_txt : forall s,
+    etxt (NExpr (snd s)) = render ns (lay_expr (snd s)) -> etxt (NStmt s) = render ns (lay_stmt s).
+  Proof.
+    intros [[[p t]|] e] He; cbn [snd] in He; rewrite (etxt_unfold (NStmt _));
+      cbn [en_children length Nat.eqb en_display inter_out lay_stmt].
+    - rewrite (etxt_unfold (NAssign _ _ _)). cbn [en_children length Nat.eqb en_display inter_out].
+      rewrite He, pat_print_machine_eq, aty_print_machine_eq. unfold print_pat, print_aty, lay_let.
+      rnorm. reflexivity.
+    - rewrite He. rnorm. reflexivity.
+  Qed.
+
+  Lemma expr_txt : forall e, etxt (NExpr e) = render ns (lay_expr e).
+  Proof.
+    induction e as [ss l Hss Hl|b|li|n|n|x|e IHe|es IHes|es IHes|es IHes|e IHe|e IHe| |e IHe
+                   |sp name args IHargs|s lp el rp er IHs IHl IHr] using pexpr_ind';
+      [rewrite etxt_block|rewrite etxt_single by reflexivity; rewrite (etxt_unfold (NSingle _))..].
+    - (* PBlock *)
+      rewrite (etxt_unfold (NBlock ss l)), block_text.
+      change (lay_expr (PBlock ss l))
+        with (LT TLBrace :: nl :: sepl [ind] (map lay_stmt ss ++ match l with Some e1 => [lay_expr e1] | None => [] end)
+              ++ [LT TRBrace; nl]).
+      rnorm. rewrite render_sepl. change (render ns [ind]) with [32;32;32;32].
+      cbn [en_children]. rewrite !map_app, !map_map.
+      assert (H1 : map (fun x => etxt (NStmt x)) ss = map (fun x => render ns (lay_stmt x)) ss).
+      { apply map_ext_Forall. eapply Forall_impl; [|exact Hss]. intros s Hs. apply stmt_txt. exact Hs. }
+      assert (H2 : map etxt match l with Some e => [NExpr e] | None => [] end
+                   = map (render ns) match l with Some e1 => [lay_expr e1] | None => [] end).
+      { destruct l as [e1|]; [|reflexivity]. cbn [popt_P map] in *. now rewrite Hl. }
+      rewrite H1, H2. reflexivity.
+    - (* PBool *) destruct b; cbn; rewrite ?app_nil_r; reflexivity.
+    - (* PLit *) destruct li; cbn [en_children length Nat.eqb en_display inter_out lay_expr lit_tok]; rnorm; reflexivity.
+    - cbn [en_children length Nat.eqb en_display inter_out lay_expr]. rnorm. reflexivity.
+    - cbn [en_children length Nat.eqb en_display inter_out lay_expr]. rnorm. reflexivity.
+    - cbn [en_children length Nat.eqb en_display inter_out lay_expr]. rnorm. reflexivity.
+    - (* PParen *)
+      cbn [en_children length Nat.eqb en_display inter_out lay_expr wrap_display]. rewrite IHe. rnorm. reflexivity.
+    - (* PTuple *)
+      cbn [en_children en_display lay_expr]. rewrite seq_text, map_map, (map_ext_Forall _ _ _ IHes), one_len.
+      rnorm. rewrite render_sepl, map_map, render_if_csp. reflexivity.
+    - (* PArray *)
+      cbn [en_children en_display lay_expr]. rewrite seq_text, map_map, (map_ext_Forall _ _ _ IHes).
+      rnorm. rewrite render_sepl, map_map. reflexivity.
+    - (* PList *)
+      cbn [en_children en_display lay_expr]. rewrite seq_text, map_map, (map_ext_Forall _ _ _ IHes).
+      rnorm. rewrite render_sepl, map_map. reflexivity.
+    - cbn [en_children length Nat.eqb en_display inter_out lay_expr wrap_display]. rewrite IHe. rnorm. reflexivity.
+    - cbn [en_children length Nat.eqb en_display inter_out lay_expr wrap_display]. rewrite IHe. rnorm. reflexivity.
+    - cbn [en_children length Nat.eqb en_display inter_out lay_expr]. rnorm. reflexivity.
+    - cbn [en_children length Nat.eqb en_display inter_out lay_expr wrap_display]. rewrite IHe. rnorm. reflexivity.
+    - (* PCall *)
+      cbn [en_children length Nat.eqb en_display inter_out lay_expr].
+      rewrite (etxt_unfold (NCall _ _)). cbn [en_children en_display].
+      rewrite seq_text, map_map, (map_ext_Forall _ _ _ IHargs), callname_txt.
+      rnorm. rewrite render_sepl, map_map. reflexivity.
+    - (* PMatch *)
+      cbn [en_children length Nat.eqb en_display inter_out lay_expr].
+      rewrite (etxt_unfold (NMatch _ _ _ _ _)). cbn [en_children length Nat.eqb en_display inter_out].
+      rewrite IHs, IHl, IHr, !mpat_txt. rnorm. reflexivity.
+  Qed.
+
+  (* MAIN THEOREM (expressions): the ExprTree machine prints the structural text *)
+  Theorem expr_print_machine_eq : forall e, expr_print_machine ns e = print_expr ns e.
+  Proof.
+    intros e. unfold expr_print_machine, en_print_machine, print_expr.
+    rewrite (vev_machine en_children en_count en_count_eq). apply expr_txt.
+  Qed.
+
+  (** ** items and programs *)
+  Lemma params_tail : forall ps i,
+    params_machine ns (S i) ps = flat_map (fun p => [44; 32] ++ render ns (lay_param p)) ps.
+  Proof.
+    induction ps as [|p ps IH]; intros i; [reflexivity|].
+    cbn [params_machine flat_map Nat.ltb Nat.leb]. rewrite IH, aty_print_machine_eq.
+    unfold print_aty, lay_param. rnorm. reflexivity.
+  Qed.
+
+  Lemma sep_by_flat : forall {A} sep (f : A -> list N) x xs,
+    sep_by sep (map f (x :: xs)) = f x ++ flat_map (fun y => sep ++ f y) xs.
+  Proof.
+    intros A sep f x xs. revert x. induction xs as [|y xs IH]; intros x.
+    - cbn. now rewrite app_nil_r.
+    - cbn [map]. rewrite sep_by_cons2. change (f y :: map f xs) with (map f (y :: xs)). rewrite IH.
+      cbn [flat_map]. rewrite <- !app_assoc. reflexivity.
+  Qed.
+
+  Lemma params_txt : forall ps, params_machine ns 0 ps = render ns (sepl csp (map lay_param ps)).
+  Proof.
+    intros [|p ps]; [reflexivity|].
+    rewrite render_sepl, map_map. rewrite (sep_by_flat _ (fun x => render ns (lay_param x))).
+    cbn [params_machine Nat.ltb Nat.leb]. rewrite params_tail, aty_print_machine_eq.
+    unfold print_aty, lay_param. rnorm. reflexivity.
+  Qed.
+
+  Lemma item_txt : forall i, item_machine ns i = render ns (lay_item i).
+  Proof.
+    destruct i as [n t|name ps ret body| ]; cbn [item_machine lay_item].
+    - rewrite aty_print_machine_eq. unfold print_aty. rnorm. reflexivity.
+    - rewrite params_txt, expr_print_machine_eq. unfold print_expr.
+      destruct ret as [t|]; rewrite ?aty_print_machine_eq; unfold print_aty; rnorm; reflexivity.
+    - reflexivity.
+  Qed.
+
+  (* MAIN THEOREM: the model of Display for Program built from the three state machines prints
+     exactly the structural text *)
+  Theorem print_program_machine_eq : forall p, print_program_machine ns p = print_program ns p.
+  Proof.
+    intros p. unfold print_program_machine, print_program, lay_program.
+    induction p as [|i p IH]; [reflexivity|]. cbn [flat_map]. rewrite IH, item_txt. rnorm. reflexivity.
+  Qed.
+End MachineProofs2.
+Print Assumptions pat_print_machine_eq.
+Print Assumptions expr_print_machine_eq.
+Print Assumptions print_program_machine_eq.
+
+(** * Part 3: the printed text is the token list with whitespace in between *)
+
+(* by definition *)
+Theorem print_program_render : forall ns p, print_program ns p = render ns (lay_program p).
+Proof. reflexivity. Qed.
+
+Lemma toks_of_app : forall a b, toks_of (a ++ b) = toks_of a ++ toks_of b.
+Proof. intros. apply flat_map_app. Qed.
+Lemma toks_of_LT : forall t l, toks_of (LT t :: l) = t :: toks_of l.
+Proof. reflexivity. Qed.
+Lemma toks_of_sp : forall l, toks_of (sp :: l) = toks_of l.
+Proof. reflexivity. Qed.
+Lemma toks_of_nl : forall l, toks_of (nl :: l) = toks_of l.
+Proof. reflexivity. Qed.
+Lemma toks_of_nil : toks_of [] = [].
+Proof. reflexivity. Qed.
+
+Lemma toks_of_sepl_csp : forall xs, toks_of (sepl csp xs) = sepl [TComma] (map toks_of xs).
+Proof.
+  induction xs as [|x [|y xs] IH]; [reflexivity|reflexivity|].
+  rewrite sepl_cons2. cbn [map]. rewrite sepl_cons2, !toks_of_app, IH. reflexivity.
+Qed.
+
+Lemma toks_of_sepl_ind : forall xs, toks_of (sepl [ind] xs) = flat_map toks_of xs.
+Proof.
+  induction xs as [|x [|y xs] IH]; [reflexivity|cbn; now rewrite app_nil_r|].
+  rewrite sepl_cons2, !toks_of_app, IH. reflexivity.
+Qed.
+
+Lemma toks_of_if_csp : forall b : bool, toks_of (if b then csp else []) = if b then [TComma] else [].
+Proof. destruct b; reflexivity. Qed.
+
+Lemma toks_of_if_comma : forall b : bool, toks_of (if b then [LT TComma] else []) = if b then [TComma] else [].
+Proof. destruct b; reflexivity. Qed.
+
+Ltac tnorm :=
+  repeat (rewrite toks_of_app || rewrite toks_of_LT || rewrite toks_of_sp || rewrite toks_of_nl
+          || rewrite toks_of_sepl_csp || rewrite toks_of_if_csp || rewrite toks_of_if_comma || rewrite toks_of_nil);
+  repeat rewrite <- app_assoc; cbn [app].
+
+Lemma lay_aty_tokens : forall t, toks_of (lay_aty t) = tokens_aty t.
+Proof.
+  induction t as [n|n|a b IHa IHb|a IHa| |k|ts IHts|a n IHa|a k IHa] using aty_ind';
+    cbn [lay_aty tokens_aty]; tnorm; rewrite ?IHa, ?IHb; try reflexivity.
+  rewrite map_map, (map_ext_Forall _ _ _ IHts). reflexivity.
+Qed.
+
+Lemma lay_pat_tokens : forall p, toks_of (lay_pat p) = tokens_pat p.
+Proof.
+  induction p as [x| |ps IHps|ps IHps] using pat_ind'; cbn [lay_pat tokens_pat]; tnorm; try reflexivity;
+    rewrite map_map, (map_ext_Forall _ _ _ IHps); reflexivity.
+Qed.
+
+Lemma lay_mpat_tokens : forall m, toks_of (lay_mpat m) = tokens_mpat m.
+Proof. destruct m; cbn [lay_mpat tokens_mpat]; tnorm; rewrite ?lay_aty_tokens; reflexivity. Qed.
+
+Lemma lay_callname_tokens : forall c, toks_of (lay_callname c) = tokens_callname c.
+Proof. destruct c; cbn [lay_callname tokens_callname]; tnorm; rewrite ?lay_aty_tokens; reflexivity. Qed.
+
+Lemma flat_map_map : forall {A B C} (f : B -> list C) (g : A -> B) l, flat_map f (map g l) = flat_map (fun x => f (g x)) l.
+Proof. intros. induction l as [|x l IH]; [reflexivity|]. cbn [map flat_map]. now rewrite IH. Qed.
+
+Lemma flat_map_ext_Forall : forall {A B} (f g : A -> list B) l,
+  Forall (fun x => f x = g x) l -> flat_map f l = flat_map g l.
+Proof. intros A B f g l H. induction H as [|x l Hx _ IH]; [reflexivity|]. cbn [flat_map]. now rewrite Hx, IH. Qed.
+
+Lemma lay_expr_tokens : forall e, toks_of (lay_expr e) = tokens_expr e.
+Proof.
+  induction e as [ss l Hss Hl|b|li|n|n|x|e IHe|es IHes|es IHes|es IHes|e IHe|e IHe| |e IHe
+                 |sp name args IHargs|s lp el rp er IHs IHl IHr] using pexpr_ind';
+    try (cbn [lay_expr tokens_expr]; tnorm; rewrite ?IHe; reflexivity);
+    try (cbn [lay_expr tokens_expr]; tnorm; rewrite map_map, (map_ext_Forall _ _ _ IHes); reflexivity).
+  - change (lay_expr (PBlock ss l))
+      with (LT TLBrace :: nl :: sepl [ind] (map lay_stmt ss ++ match l with Some e1 => [lay_expr e1] | None => [] end)
+            ++ [LT TRBrace; nl]).
+    change (tokens_expr (PBlock ss l))
+      with (TLBrace :: flat_map tokens_stmt ss ++ match l with Some e1 => tokens_expr e1 | None => [] end ++ [TRBrace]).
+    tnorm. rewrite toks_of_sepl_ind, flat_map_app, flat_map_map. repeat rewrite <- app_assoc. f_equal. f_equal.
+    + apply flat_map_ext_Forall. eapply Forall_impl; [|exact Hss]. intros [[[p t]|] e1] He; cbn [snd] in He;
+        cbn [lay_stmt tokens_stmt]; unfold lay_let, tokens_let; tnorm;
+        rewrite ?lay_pat_tokens, ?lay_aty_tokens, He; reflexivity.
+    + destruct l as [e1|]; [|reflexivity]. cbn [popt_P flat_map] in *. rewrite app_nil_r, Hl. reflexivity.
+  - cbn [lay_expr tokens_expr]. tnorm. rewrite lay_callname_tokens, map_map, (map_ext_Forall _ _ _ IHargs).
+    reflexivity.
+  - cbn [lay_expr tokens_expr]. tnorm. rewrite IHs, IHl, IHr, !lay_mpat_tokens. reflexivity.
+Qed.
+
+Lemma lay_item_tokens : forall i, toks_of (lay_item i) = tokens_item i.
+Proof.
+  destruct i as [n t|name ps ret body| ]; cbn [lay_item tokens_item].
+  - tnorm. rewrite lay_aty_tokens. reflexivity.
+  - tnorm. rewrite lay_expr_tokens, map_map.
+    assert (H : map (fun x => toks_of (lay_param x)) ps = map tokens_param ps).
+    { apply map_ext. intros [x t]. unfold lay_param, tokens_param. tnorm. now rewrite lay_aty_tokens. }
+    rewrite H. destruct ret as [t|]; tnorm; rewrite ?lay_aty_tokens; reflexivity.
+  - reflexivity.
+Qed.
+
+(* the tokens of the layout are the token list *)
+Theorem lay_program_tokens : forall p, toks_of (lay_program p) = tokens_program p.
+Proof.
+  induction p as [|i p IH]; [reflexivity|]. unfold lay_program, tokens_program in *. cbn [flat_map].
+  tnorm. rewrite IH, lay_item_tokens. reflexivity.
+Qed.
+
+(* everything else in the layout is spaces and newlines *)
+Definition ws_ok (l : list litem) : bool := forallb litem_ws_ok l.
+
+Lemma ws_ok_app : forall a b, ws_ok (a ++ b) = ws_ok a && ws_ok b.
+Proof. intros. apply forallb_app. Qed.
+
+Lemma ws_ok_sepl : forall sep xs, ws_ok sep = true -> Forall (fun x => ws_ok x = true) xs -> ws_ok (sepl sep xs) = true.
+Proof.
+  intros sep xs Hsep H. induction xs as [|x [|y xs] IH]; [reflexivity|now inversion H|].
+  inversion H as [|x0 l0 Hx Hr]; subst. rewrite sepl_cons2, !ws_ok_app, Hx, Hsep, IH by exact Hr. reflexivity.
+Qed.
+
+Lemma ws_ok_map : forall {A} (f : A -> list litem) xs,
+  Forall (fun x => ws_ok (f x) = true) xs -> Forall (fun x => ws_ok x = true) (map f xs).
+Proof. intros A f xs H. induction H; constructor; auto. Qed.
+
+Ltac wnorm := repeat (rewrite ws_ok_app || (rewrite ws_ok_sepl; [|reflexivity|])); cbn [ws_ok forallb litem_ws_ok andb].
+
+Lemma lay_aty_ws : forall t, ws_ok (lay_aty t) = true.
+Proof.
+  induction t as [n|n|a b IHa IHb|a IHa| |k|ts IHts|a n IHa|a k IHa] using aty_ind'; cbn [lay_aty];
+    try reflexivity;
+    try (change (ws_ok (?x :: ?l)) with (litem_ws_ok x && ws_ok l); rewrite !ws_ok_app, ?IHa, ?IHb; reflexivity).
+  change (ws_ok (?x :: ?l)) with (litem_ws_ok x && ws_ok l). rewrite !ws_ok_app.
+  rewrite ws_ok_sepl; [destruct (one ts); reflexivity|reflexivity|apply ws_ok_map; exact IHts].
+Qed.
+
+Lemma lay_pat_ws : forall p, ws_ok (lay_pat p) = true.
+Proof.
+  induction p as [x| |ps IHps|ps IHps] using pat_ind'; cbn [lay_pat]; try reflexivity;
+    change (ws_ok (?x :: ?l)) with (litem_ws_ok x && ws_ok l); rewrite !ws_ok_app;
+    (rewrite ws_ok_sepl; [try destruct (one ps); reflexivity|reflexivity|apply ws_ok_map; exact IHps]).
+Qed.
+
+Lemma lay_mpat_ws : forall m, ws_ok (lay_mpat m) = true.
+Proof.
+  destruct m; cbn [lay_mpat]; try reflexivity;
+    do 4 (change (ws_ok (?x :: ?l)) with (litem_ws_ok x && ws_ok l)); rewrite ws_ok_app, lay_aty_ws; reflexivity.
+Qed.
+
+Lemma lay_callname_ws : forall c, ws_ok (lay_callname c) = true.
+Proof.
+  destruct c; cbn [lay_callname]; try reflexivity;
+    change (ws_ok (?x :: ?l)) with (litem_ws_ok x && ws_ok l); rewrite ws_ok_app, lay_aty_ws; reflexivity.
+Qed.
+
+Lemma ws_ok_cons : forall x l, ws_ok (x :: l) = litem_ws_ok x && ws_ok l.
+Proof. reflexivity. Qed.
+
+Lemma lay_expr_ws : forall e, ws_ok (lay_expr e) = true.
+Proof.
+  induction e as [ss l Hss Hl|b|li|n|n|x|e IHe|es IHes|es IHes|es IHes|e IHe|e IHe| |e IHe
+                 |sp name args IHargs|s lp el rp er IHs IHl IHr] using pexpr_ind';
+    try reflexivity;
+    try (cbn [lay_expr]; rewrite ws_ok_cons, ws_ok_app, IHe; reflexivity);
+    try (cbn [lay_expr]; rewrite ws_ok_cons, !ws_ok_app;
+         (rewrite ws_ok_sepl; [try destruct (one es); reflexivity|reflexivity|apply ws_ok_map; exact IHes])).
+  - change (lay_expr (PBlock ss l))
+      with (LT TLBrace :: nl :: sepl [ind] (map lay_stmt ss ++ match l with Some e1 => [lay_expr e1] | None => [] end)
+            ++ [LT TRBrace; nl]).
+    rewrite !ws_ok_cons, ws_ok_app. rewrite ws_ok_sepl; [reflexivity|reflexivity|].
+    apply Forall_app. split.
+    + apply ws_ok_map. eapply Forall_impl; [|exact Hss]. intros [[[p t]|] e1] He; cbn [snd] in He;
+        cbn [lay_stmt]; unfold lay_let; rewrite ?ws_ok_cons, ?ws_ok_app, ?lay_pat_ws, ?lay_aty_ws, He; reflexivity.
+    + destruct l as [e1|]; constructor; [exact Hl|constructor].
+  - cbn [lay_expr]. rewrite ws_ok_app, lay_callname_ws, ws_ok_cons, ws_ok_app.
+    rewrite ws_ok_sepl; [reflexivity|reflexivity|apply ws_ok_map; exact IHargs].
+  - cbn [lay_expr]. rewrite ?ws_ok_cons, ?ws_ok_app, ?ws_ok_cons, IHs, IHl, IHr, !lay_mpat_ws. reflexivity.
+Qed.
+
+Lemma lay_item_ws : forall i, ws_ok (lay_item i) = true.
+Proof.
+  destruct i as [n t|name ps ret body| ]; cbn [lay_item]; [| |reflexivity].
+  - rewrite !ws_ok_cons, ws_ok_app, lay_aty_ws. reflexivity.
+  - rewrite !ws_ok_cons, !ws_ok_app, ws_ok_cons, lay_expr_ws.
+    rewrite ws_ok_sepl; [|reflexivity|].
+    + destruct ret as [t|]; [|reflexivity]. rewrite !ws_ok_cons, lay_aty_ws. reflexivity.
+    + apply ws_ok_map. apply Forall_forall. intros [x t] _. unfold lay_param. rewrite !ws_ok_cons. apply lay_aty_ws.
+Qed.
+
+Theorem lay_program_ws : forall p, ws_ok (lay_program p) = true.
+Proof.
+  induction p as [|i p IH]; [reflexivity|]. unfold lay_program in *. cbn [flat_map].
+  rewrite !ws_ok_app, lay_item_ws, IH. reflexivity.
+Qed.
+Print Assumptions lay_program_tokens.
+Print Assumptions lay_program_ws.
